@@ -86,6 +86,39 @@ func runC36(c *eng.Ctx) {
 				"the delete sent to the target filer carries the event's signatures and the from-other-cluster mark")
 		}
 	}
+	// ... and the shared delete helper puts both into the request it sends
+	if rm := c.P.Func("weed/pb/filer_pb", "Remove"); rm != nil {
+		for _, f := range eng.WithAnon(rm) {
+			for i, in := range eng.Find(f, func(in ssa.Instruction) bool {
+				a, ok := in.(*ssa.Alloc)
+				return ok && eng.TypeName(a.Type()) == "DeleteEntryRequest"
+			}) {
+				al := in.(*ssa.Alloc)
+				c.Touch(f)
+				sig, other := false, false
+				for _, r := range *al.Referrers() {
+					fa, ok := r.(*ssa.FieldAddr)
+					if !ok {
+						continue
+					}
+					for _, rr := range *fa.Referrers() {
+						st, isSt := rr.(*ssa.Store)
+						if !isSt {
+							continue
+						}
+						switch structFieldName(al.Type(), fa.Field) {
+						case "Signatures":
+							sig = eng.IsParamLike(eng.Unwrap(st.Val), "signatures")
+						case "IsFromOtherCluster":
+							other = eng.IsParamLike(eng.Unwrap(st.Val), "isFromOtherCluster")
+						}
+					}
+				}
+				c.Ob("FIELDS-origin", fmt.Sprintf("%s DeleteEntryRequest#%d", eng.FuncName(f), i), sig && other, al.Pos(),
+					"the delete helper forwards the caller's signatures and from-other-cluster mark into the request")
+			}
+		}
+	}
 	if nReq < 3 {
 		c.Undecided("FIELDS-origin", "discovery", token.NoPos, fmt.Sprintf("only %d requests to the target filer found (expected 3)", nReq))
 	}
